@@ -1919,6 +1919,141 @@ def case_halfplane_straight(case):
     return r
 
 
+# ------------------------------------------------------------------------------------------
+# half-plane drawings with a window of their own (constructor arguments xlim, ylim)
+# ------------------------------------------------------------------------------------------
+# x-ranges: the default, windows left / right of the origin, across it off-centre, narrow, far away; y-ranges
+HPW_XLIMS = [None, [-6.0, 6.0], [-30.0, 2.0], [2.0, 30.0], [-30.0, -2.0], [-2.0, 30.0], [-3.0, 1.0], [100.0, 112.0], [-112.0, -100.0], [-50.0, 60.0]]
+HPW_YLIMS = [None, [-0.1, 8.0], [-0.1, 3.0], [-1.0, 20.0]]
+HPW_DEFAULT = ([-6.0, 6.0], [-0.1, 8.0])      # checked against drawing.xlim / drawing.ylim in every default case
+HPW_FAR = 170.0                               # far end points: beyond the window by 2 widths + HPW_FAR (radius to any point of the window > 85)
+
+
+def hpw_points(xlim, ylim):
+    """End point alphabet (half-plane coordinates) of one window: [tag, x, y], tag 'oi' ideal point inside the x-range,
+    'of' finite point inside the window, 'fi' ideal point far beyond it, 'ff' finite point far beyond it."""
+    (x0, x1), (y0, y1) = xlim, ylim
+    w = x1 - x0
+    out = [["oi", x0 + f * w, 0.0] for f in (0.05, 0.3, 0.5, 0.75, 0.95)]
+    out += [["of", x0 + f * w, y] for f, y in ((0.2, 1.0), (0.5, 0.6 * y1), (0.8, 0.25))]
+    out += [["fi", x, 0.0] for x in (x1 + 2 * w + HPW_FAR, x0 - 2 * w - HPW_FAR, x1 + 2 * w + 3 * HPW_FAR, x0 - 2 * w - 3 * HPW_FAR)]
+    out += [["ff", x1 + 2 * w + HPW_FAR, 1.0], ["ff", x0 - 2 * w - HPW_FAR, 1.0]]
+    return out
+
+
+def halfplane_window_cases(xlims, ylims):
+    for xl in xlims:
+        for yl in ylims:
+            P = hpw_points(xl or HPW_DEFAULT[0], yl or HPW_DEFAULT[1])
+            for a in P:
+                bs = [b for b in P if b != a and not (a[0][0] == "f" and b[0][0] == "f")]
+                yield {"xlim": xl, "ylim": yl, "a": a, "bs": bs}
+
+
+def hp_circle(A, B):
+    """Half-plane geodesic through A, B (model coordinates, ideal points at height 0): (centre abscissa, radius);
+    (None, inf) for a vertical line."""
+    dx = float(B[0] - A[0])
+    if dx == 0.0:
+        return None, math.inf
+    c = (float(B[0] ** 2 + B[1] ** 2) - float(A[0] ** 2 + A[1] ** 2)) / (2.0 * dx)
+    return c, math.hypot(A[0] - c, A[1])
+
+
+def window_straight_violations(site, ta, A, tb, B, patch, ax, ylim):
+    """Straight substitute in a window: one straight piece.  Both end points ordinary (inside the window, or finite):
+    the chord.  One end an ideal point far beyond the window: the chord, or the vertical ray from the OTHER end point
+    (the one that can be seen) to beyond the top of the view."""
+    if type(patch).__name__ != "PathPatch":
+        return [V("%s/straight/artist-type" % site, "expected the straight PathPatch, got %s" % type(patch).__name__)]
+    vs, cs = data_path(patch, ax)
+    try:
+        pcs = [p for p in svgpath.pieces(vs, cs) if p.kind == "M" or p.length_bound() > 0.0]
+    except svgpath.PathError as e:
+        return [V("%s/path-malformed" % site, str(e))]
+    if [p.kind for p in pcs] != ["M", "L"]:
+        return [V("%s/straight/codes" % site, "codes %s, expected MOVETO LINETO" % svgpath.code_summary(cs))]
+    P, Q = pcs[1].start, pcs[1].end
+    # ideal points and the far points (conditioning of the chart ~ x^2): tol_ideal; finite points of the window: tol_pt
+    tA = tol_ideal(A) if (A[1] == 0.0 or ta[0] == "f") else tol_pt(A)
+    tB = tol_ideal(B) if (B[1] == 0.0 or tb[0] == "f") else tol_pt(B)
+
+    def chord(P, Q):
+        return np.linalg.norm(P - A) <= tA and np.linalg.norm(Q - B) <= tB
+
+    def ray(P, Q, O, tO):
+        return np.linalg.norm(P - O) <= tO and abs(Q[0] - O[0]) <= tO and Q[1] >= ylim[1]
+    ok = chord(P, Q) or chord(Q, P)
+    want = "the chord"
+    for (tf_, O, tO) in ((tb, A, tA), (ta, B, tB)):
+        if tf_ == "fi":
+            want = "the chord, or the vertical ray from %s to beyond the top of the view y=%g" % (fmt(O), ylim[1])
+            ok = ok or ray(P, Q, O, tO) or ray(Q, P, O, tO)
+    if not ok:
+        return [V("%s/straight/anchor" % site, "drawn %s -> %s; expected %s" % (fmt(P), fmt(Q), want))]
+    return []
+
+
+def case_halfplane_window(case):
+    """One half-plane figure with the window of the case (xlim / ylim handed to the constructor, None = default); a
+    segment (two ideal end points: also the geodesic) from case["a"] to every end point of case["bs"], each drawn by a
+    draw_geodesic call of its own.  End points are handed over in half-plane coordinates."""
+    import matplotlib.pyplot as plt
+    from geometry_tools import drawtools, hyperbolic
+    site = "window/geodesic"
+    v, summ, t = [], set(), 0
+    xl, yl = case["xlim"], case["ylim"]
+    try:
+        plt.close("all")
+        kw = {}
+        if xl is not None:
+            kw["xlim"] = tuple(xl)
+        if yl is not None:
+            kw["ylim"] = tuple(yl)
+        d = drawtools.HyperbolicDrawing(model=lib_model("halfspace"), **kw)
+        _decoy_axes(plt)
+        wx, wy = xl or HPW_DEFAULT[0], yl or HPW_DEFAULT[1]
+        if [float(x) for x in d.xlim] != wx or [float(y) for y in d.ylim] != wy or \
+                [float(x) for x in d.ax.get_xlim()] != wx or [float(y) for y in d.ax.get_ylim()] != wy:
+            v.append(V("window/limits", "drawing.xlim, ylim = %s, %s, axes limits %s, %s; the window is %s x %s" % (
+                d.xlim, d.ylim, d.ax.get_xlim(), d.ax.get_ylim(), wx, wy)))
+        thr = threshold()
+        ta, A = case["a"][0], np.array(case["a"][1:], dtype=float)
+
+        def hpoint(X):
+            return hyperbolic.Point(np.array(X, dtype=float), model=lib_model("halfspace"))
+        for b in case["bs"]:
+            tb, B = b[0], np.array(b[1:], dtype=float)
+            c, r = hp_circle(A, B)
+            if thr * (1.0 - BAND) <= r <= thr * (1.0 + BAND):
+                summ.add("skipped:band")
+                continue
+            kinds = ["segment"] + (["geodesic"] if A[1] == 0.0 and B[1] == 0.0 else [])
+            for kind in kinds:
+                obj = (hyperbolic.Segment if kind == "segment" else hyperbolic.Geodesic)(hpoint(A), hpoint(B))
+                before = all_artists()
+                d.draw_geodesic(pre_query(obj))
+                t += 1
+                new = new_artists(before)
+                vv = located(new, d, 1, site)
+                if not vv:
+                    art, ax = new[0]
+                    if r > thr:
+                        vv = window_straight_violations(site, ta, A, tb, B, art, ax, wy)
+                        summ.add("S:%s-%s" % (ta, tb))
+                    else:
+                        S, E = (A, B) if A[0] > B[0] else (B, A)        # counter-clockwise in the upper half-plane: from the right end
+                        tolp = tol_arc(r) + max(tol_ideal(A), tol_ideal(B))
+                        vv = arc_patch_check("halfspace", np.array([c, 0.0]), r, S, E, None, art, site, tolp)
+                        summ.add("A:%s-%s" % (ta, tb))
+                for x in vv:
+                    x["msg"] = "window %s x %s, %s %s - %s (half-plane coordinates, circle radius %.6g): %s" % (wx, wy, kind, fmt(A), fmt(B), r, x["msg"])
+                v += vv
+    finally:
+        close_all()
+    return {"v": v[:6], "t": t, "o": "%s/%s/%s/" % (xl, yl, ta) + ";".join(sorted(summ)), "nt": any(s[0] in "SA" for s in summ)}
+
+
 def point_lattice(seed, m_generic):
     """Corner + generic points of mc.lattice plus the special points; a point closer than MIN_SEP to
     an earlier one is dropped (short edges are a conditioning question, not a drawing question)."""
@@ -2360,6 +2495,19 @@ def run(ctx):
             domains={"model": "halfspace", "transform": "id", "polygons": "triangles (inf, A, B), (A, inf, B), (A, B, inf) for all ordered pairs A, B of 10 lattice points; "
                      "quadrilaterals with the vertex at infinity first, third, last for every 5th pair and every third point",
                      "clauses": ["one MOVETO", "starts and ends at the first vertex", "finite vertices in order", "every drawn point inside the view on an edge"]}, chunk=1)
+
+    # half-plane drawings with a window of their own
+    ctx.assume("half-plane, section halfplane-window (identity transform, end points handed over in half-plane coordinates): the drawing's window is the "
+               "constructor's xlim x ylim; end points are ideal or finite points inside the window, or ideal / finite points beyond it by more than two "
+               "window widths + %g (never both).  Below RADIUS_THRESHOLD: the Arc of the geodesic.  Above: the chord between the two end points; when one end "
+               "is an ideal point far beyond the window also the vertical ray from the other (visible) end point to beyond the top of the view" % HPW_FAR)
+    hwy = [None, [-0.1, 3.0]] if q else HPW_YLIMS
+    hwc = list(halfplane_window_cases(HPW_XLIMS, hwy))
+    product("halfplane-window", "checks.c19:case_halfplane_window", hwc,
+            domains={"model": "halfspace", "transform": "id", "xlim": HPW_XLIMS, "ylim": hwy, "default window": HPW_DEFAULT,
+                     "end points per window": "5 ideal points inside the x-range (at 5, 30, 50, 75, 95 %), 3 finite points inside the window, 4 ideal and 2 finite points "
+                                              "far beyond it on either side",
+                     "objects": "segments for all ordered pairs (not both far), and the geodesic for every pair of ideal points; one draw_geodesic call each"}, chunk=4)
 
     # composites: 3 or 4 segments / geodesics in one call
     R = 6 if q else 24
